@@ -25,7 +25,7 @@ def to_lines(cirq, circuit, order):
     ops, cuts = [], []
     for moment in circuit:
         for op in moment.operations:
-            u = cirq.unitary(op)
+            u = gen.op_unitary(cirq, op)
             ops.append({'m': [common.c2j(z) for z in u.reshape(-1)], 'axes': [pos[q] for q in op.qubits]})
         cuts.append(len(ops))
     return ops, cuts
@@ -80,7 +80,7 @@ def run(ctx: common.Run):
     for i in range(n):
         mode = rng.choice(['qubit'] * 5 + ['qudit'] * 2 + ['classical'] * 2)
         circuit, qids = gen.random_unitary_circuit(
-            cirq, rng, max_wires=5 if mode != 'qudit' else 4, qudits=(mode == 'qudit'), max_ops=10, classical=(mode == 'classical'), phases=True
+            cirq, rng, max_wires=5 if mode != 'qudit' else 4, qudits=(mode == 'qudit'), max_ops=10, classical=(mode == 'classical'), phases=True, ancilla=(mode == 'qubit')
         )
         check_circuit(ctx, cirq, rng, circuit, qids, mode)
         if mode == 'qubit' and i % 2 == 0:
